@@ -17,6 +17,7 @@ import (
 
 	"com.tuntun.rangers/node/src/common"
 	"com.tuntun.rangers/node/src/eth_tx"
+	"com.tuntun.rangers/node/src/middleware/db"
 	"com.tuntun.rangers/node/src/middleware/types"
 	"com.tuntun.rangers/node/src/service"
 	"com.tuntun.rangers/node/src/storage/rlp"
@@ -31,12 +32,21 @@ func secKey(i int) *common.PrivateKey {
 	return common.HexStringToSecKey("0x" + hex.EncodeToString(d[:]))
 }
 
-func verdict(tx *types.Transaction) string {
+// newPool: a pool from the production field set-up (own in-memory executed store), one per body
+func newPool() *service.TxPool {
+	mem, err := db.NewMemDatabase()
+	if err != nil {
+		panic(err)
+	}
+	return service.VerifNewTxPool(mem, false)
+}
+
+func verdict(pool *service.TxPool, tx *types.Transaction) string {
 	cp := *tx
 	if tx.Sign != nil {
 		cp.Sign = common.BytesToSign(tx.Sign.Bytes())
 	}
-	if err := (&service.TxPool{}).VerifyTransaction(&cp, height); err != nil {
+	if err := pool.VerifyTransaction(&cp, height); err != nil {
 		return err.Error()
 	}
 	return "accept"
@@ -44,6 +54,7 @@ func verdict(tx *types.Transaction) string {
 
 // native: hash, sign, recover, verify the honest transaction and two single-field mutants
 func native(key int, typ int32, nonce uint64, data, extra string) func() string {
+	pool := newPool()
 	return func() string {
 		sk := secKey(key)
 		pk := sk.GetPubKey()
@@ -59,20 +70,21 @@ func native(key int, typ int32, nonce uint64, data, extra string) func() string 
 			ok = rec.Verify(tx.Hash.Bytes(), &sign)
 		}
 		var b strings.Builder
-		fmt.Fprintf(&b, "hash=%x sign=%s recovered=%s verify=%v honest=%s", tx.Hash[:], sign.GetHexString(), recAddr, ok, verdict(tx))
+		fmt.Fprintf(&b, "hash=%x sign=%s recovered=%s verify=%v honest=%s", tx.Hash[:], sign.GetHexString(), recAddr, ok, verdict(pool, tx))
 		m1 := *tx
 		m1.Data = data + "x"
 		sb := sign.Bytes()
 		sb[40] ^= 4
 		m3 := *tx
 		m3.Sign = common.BytesToSign(sb)
-		fmt.Fprintf(&b, " data-mutant=%s sign-mutant=%s rehash=%x", verdict(&m1), verdict(&m3), m1.GenHash().Bytes())
+		fmt.Fprintf(&b, " data-mutant=%s sign-mutant=%s rehash=%x", verdict(pool, &m1), verdict(pool, &m3), m1.GenHash().Bytes())
 		return b.String()
 	}
 }
 
 // wrapped Ethereum: build, EIP-155 sign, encode, decode, recover, convert, verify honest + mutants
 func eth(key int, nonce uint64, to string, value int64, data []byte) func() string {
+	pool := newPool()
 	return func() string {
 		sk := secKey(key)
 		cid, _ := new(big.Int).SetString(chainID, 10)
@@ -101,14 +113,14 @@ func eth(key int, nonce uint64, to string, value int64, data []byte) func() stri
 		}
 		w := eth_tx.ConvertTx(dec, sender, enc)
 		var b strings.Builder
-		fmt.Fprintf(&b, "payload=%x hash=%x sighash=%x sender=%s data=%s honest=%s", enc, w.Hash[:], signer.Hash(dec).Bytes(), w.Source, w.Data, verdict(w))
+		fmt.Fprintf(&b, "payload=%x hash=%x sighash=%x sender=%s data=%s honest=%s", enc, w.Hash[:], signer.Hash(dec).Bytes(), w.Source, w.Data, verdict(pool, w))
 		m1 := *w
 		m1.Nonce++
 		p := append([]byte(nil), enc...)
 		p[len(p)-1] ^= 1 // last byte of s
 		m3 := *w
 		m3.ExtraData = common.ToHex(p)
-		fmt.Fprintf(&b, " nonce-mutant=%s payload-mutant=%s", verdict(&m1), verdict(&m3))
+		fmt.Fprintf(&b, " nonce-mutant=%s payload-mutant=%s", verdict(pool, &m1), verdict(pool, &m3))
 		return b.String()
 	}
 }
